@@ -561,7 +561,31 @@ func (c *tgComp) Run(args []string) string {
 		if c.c == nil {
 			return "noconfig"
 		}
-		return "cfg " + c.digCfg(c.c.Current())
+		cfg := c.c.Current()
+		out := "cfg " + c.digCfg(cfg)
+		// Current hands out a copy that is the caller's to edit (the read-modify-Load workflow): scribble all
+		// over it — the configuration held by the Config, the old side of the next diff, must not change
+		// (seeded change c17_seed9 returned a shallow copy sharing the maps and messages)
+		if cfg != nil {
+			for k, t := range cfg.Target {
+				if t != nil {
+					t.Addresses = append(t.Addresses, "scribbled")
+					t.Request = "scribbled"
+				}
+				delete(cfg.Target, k)
+			}
+			for k, r := range cfg.Request {
+				if r.GetSubscribe() != nil {
+					r.GetSubscribe().UpdatesOnly = !r.GetSubscribe().UpdatesOnly
+				}
+				delete(cfg.Request, k)
+			}
+			cfg.Revision = -7
+			if cfg.Target != nil {
+				cfg.Target["scribbled"] = nil
+			}
+		}
+		return out
 	case "validate":
 		if len(args) < 2 {
 			return "bad-op"
